@@ -22,7 +22,7 @@ SIM_SOURCE = """
 !log-variables
     a, y
 !parameters
-    g, beta, rho
+    g, beta, rho, ss_r
 !transition_shocks
     e_a, e_r
 !transition_equations
@@ -33,6 +33,8 @@ SIM_SOURCE = """
     obs_y
 !measurement_equations
     obs_y = y;
+!steady-autovalues
+    ss_r = r;
 """
 SEQ_SOURCE = """
 !parameters
@@ -69,7 +71,9 @@ class SimKind:
     def steady_obs(self, m):
         lv = m.get_steady_levels(unpack_singleton=False)
         ch = m.get_steady_changes(unpack_singleton=False)
-        return [np.array([[lv[n][k], ch[n][k]] for n in NAMES], dtype=float) for k in range(m.num_variants)]
+        par = m.get_parameters(unpack_singleton=False)
+        # (the last row is the parameter that steady() sets to the steady level of r: a !steady-autovalues equation)
+        return [np.array([[lv[n][k], ch[n][k]] for n in NAMES] + [[np.nan if par["ss_r"][k] is None else par["ss_r"][k], 0.0]], dtype=float) for k in range(m.num_variants)]
 
     def solution_obs(self, m):
         sols = m.get_solution(unpack_singleton=False)
